@@ -23,7 +23,7 @@ if __name__ == "__main__":
         jobs = [j for j in jobs if any(x in j for x in sel)]
     tot = 0
     noisy = []
-    with ProcessPoolExecutor(max_workers=8) as ex:
+    with ProcessPoolExecutor(max_workers=int(os.environ.get("VERIF_JOBS", "8"))) as ex:
         for path, status, out, info in ex.map(one, jobs):
             seen = {}
             for p, ks in sorted(out.items()):
